@@ -79,6 +79,52 @@ class SessionJob:
         return out
 
 
+class _Bounded:
+    pass
+
+
+def _run_bounded(argv, data, timeout, env, cap_out=1 << 30, keep_err=1 << 16):
+    """subprocess.run with bounds: at most cap_out bytes of stdout are kept (then the process is killed: returncode -9), of stderr only the first
+    and last keep_err bytes - code under test that floods a stream must not be buffered without limit by the check"""
+    import threading, signal as _sig
+    p = subprocess.Popen(argv, stdin=subprocess.PIPE, stdout=subprocess.PIPE, stderr=subprocess.PIPE, env=env, start_new_session=True)
+    out = []; err_head = [b""]; err_tail = [b""]; n = [0]
+    def rd_out():
+        while True:
+            d = p.stdout.read(1 << 20)
+            if not d: break
+            n[0] += len(d)
+            if n[0] <= cap_out: out.append(d)
+            else:
+                try: os.killpg(p.pid, _sig.SIGKILL)
+                except ProcessLookupError: pass
+    def rd_err():
+        while True:
+            d = p.stderr.read(1 << 16)
+            if not d: break
+            if len(err_head[0]) < keep_err: err_head[0] += d[:keep_err - len(err_head[0])]
+            err_tail[0] = (err_tail[0] + d)[-keep_err:]
+    def wr():
+        try:
+            p.stdin.write(data); p.stdin.close()
+        except (BrokenPipeError, OSError):
+            pass
+    ts = [threading.Thread(target=f, daemon=True) for f in (rd_out, rd_err, wr)]
+    for t in ts: t.start()
+    try:
+        p.wait(timeout=timeout)
+    except subprocess.TimeoutExpired:
+        try: os.killpg(p.pid, _sig.SIGKILL)
+        except ProcessLookupError: pass
+        p.wait()
+        for t in ts: t.join(5)
+        raise
+    for t in ts: t.join(10)
+    r = _Bounded(); r.returncode = p.returncode; r.stdout = b"".join(out)
+    r.stderr = err_head[0] if len(err_head[0]) < keep_err else err_head[0] + b"\n...\n" + err_tail[0]
+    return r
+
+
 def run_harness(exe, job_lines_batches, outdir, prefix, parallel=16, timeout=1200, env=None):
     """job_lines_batches: list of lists of protocol lines. Returns list of (trace file, rc, stderr tail, ncrashes).
     If the code under test crashes (signal, abort, uncaught exception) the harness records a Crashed event and exits 99;
@@ -95,8 +141,7 @@ def run_harness(exe, job_lines_batches, outdir, prefix, parallel=16, timeout=120
         start = 0; crashes = 0; rc = 0; err = ""
         with open(tf, "wb") as fout:
             while start < len(lines):
-                p = subprocess.run([exe], input=("\n".join(lines[start:]) + "\n").encode(), stdout=subprocess.PIPE,
-                                   stderr=subprocess.PIPE, timeout=timeout, env=e)
+                p = _run_bounded([exe], ("\n".join(lines[start:]) + "\n").encode(), timeout, e)
                 # a killed harness may leave a partial last line: keep complete events only
                 fout.write(p.stdout if p.returncode >= 0 else p.stdout[:p.stdout.rfind(b"\n") + 1])
                 rc = p.returncode; err = p.stderr.decode(errors="replace")[-3000:]
